@@ -283,7 +283,7 @@ def emit_c12(repo, types, props, anc, desc, out):
     open(out, "w").write("\n".join(L) + "\n")
     return bad, nfun
 
-def emit_c12_types(repo, types, props, anc, out, only=None):
+def emit_c12_types(repo, types, props, anc, out, only=None, serialize=False, decode=True, maxprops=None):
     """C12, decoding side of 'each type has exactly its ontology's properties': Deserialize<Type> hands the document to the
     decoder of each of those properties (and to no other), keeps what that decoder returns in the property's own field, and
     keeps exactly the members whose name is not one of those properties' names (or 'Map' forms) as unknown members."""
@@ -323,37 +323,38 @@ def emit_c12_types(repo, types, props, anc, out, only=None):
         for f, dec, _ in sorted(exp):
             fnv = 'decFnByName("%s")' % dec
             L.append("  loop %d [C11,C12] invariant %s_decoded: decOK(%s, m, aliasMap) && this.%s == decVal(%s, m, aliasMap)" % (lo, f, fnv, f, fnv))
-        # ---- writing: every held property goes under its own Name(), unknown members are added unless a property took
-        # the name, nothing else is written
-        S = "%s.%s%s" % (pkg, d["vocab"], t)
-        fields = sorted(f for f, _, _ in exp)
-        W = "writtenBy%s%s" % (d["vocab"], t)
-        L.append("specfun %s(k) = %s%s" % (W, " || ".join("(W_%s && N_%s == k)" % (f, f) for f in fields), "" if d["typeless"] else ' || k == "type"'))
-        L.append("func (%s).Serialize" % S)
-        L.append("  params this")
-        for f in fields:
-            L.append("  let N_%s = this.%s.Name()" % (f, f))
-            L.append("  let V_%s = this.%s.Serialize_0()" % (f, f))
-            L.append("  let E_%s = this.%s.Serialize_1()" % (f, f))
-            L.append("  let W_%s = (this.%s != nil && V_%s != nil)" % (f, f, f))
-        for f in fields:
-            # no other held property claims the same member name
-            L.append("  let U_%s = (%s)" % (f, " && ".join("(this.%s == nil || N_%s != N_%s)" % (g, g, f) for g in fields if g != f) or "true"))
-        for f in fields:
-            L.append("  [C12] ensures %s_is_written_under_its_own_name: result1 == nil && W_%s && U_%s ==> has(result0, N_%s) && result0[N_%s] == V_%s" % (f, f, f, f, f, f))
-            L.append("  [C12] ensures a_failure_of_%s_fails_the_whole: this.%s != nil && E_%s != nil ==> result1 != nil" % (f, f, f))
-        L.append("  [C12] ensures unknown_members_are_written_unless_a_property_took_the_name: result1 == nil ==> (forall k String :: {result0[k]} has(this.unknown, k) && !%s(k) ==> has(result0, k) && result0[k] == this.unknown[k])" % W)
-        L.append("  [C12] ensures nothing_else_is_written: result1 == nil ==> (forall k String :: {has(result0, k)} has(result0, k) ==> has(this.unknown, k) || %s(k))" % W)
-        L.append("  loop 1 [C12] invariant own_new_map: m != nil && fresh(m)")
-        L.append("  loop 1 [C12] invariant only_written_names_and_visited_members: forall k String :: {has(m, k)} has(m, k) ==> %s(k) || visited(1)[k]" % W)
-        L.append("  loop 1 [C12] invariant visited_members_are_present: forall k String :: {visited(1)[k]} visited(1)[k] ==> has(m, k)")
-        L.append("  loop 1 [C12] invariant visited_are_unknown_members: forall k String :: {visited(1)[k]} visited(1)[k] ==> has(this.unknown, k)")
-        L.append("  loop 1 [C12] invariant unknown_values_so_far: forall k String :: {m[k]} visited(1)[k] && !%s(k) ==> m[k] == this.unknown[k]" % W)
-        for f in fields:
-            L.append("  loop 1 [C12] invariant %s_present: W_%s ==> has(m, N_%s)" % (f, f, f))
-            L.append("  loop 1 [C12] invariant %s_written: W_%s && U_%s ==> m[N_%s] == V_%s" % (f, f, f, f, f))
-            L.append("  loop 1 [C12] invariant %s_did_not_fail: this.%s != nil ==> E_%s == nil" % (f, f, f))
-        nfun += 1
+        if serialize and (maxprops is None or len(exp) <= maxprops):
+            # ---- writing: every held property goes under its own Name(), unknown members are added unless a property took
+            # the name, nothing else is written
+            S = "%s.%s%s" % (pkg, d["vocab"], t)
+            fields = sorted(f for f, _, _ in exp)
+            W = "writtenBy%s%s" % (d["vocab"], t)
+            L.append("specfun %s(k) = %s%s" % (W, " || ".join("(W_%s && N_%s == k)" % (f, f) for f in fields), "" if d["typeless"] else ' || k == "type"'))
+            L.append("func (%s).Serialize" % S)
+            L.append("  params this")
+            for f in fields:
+                L.append("  let N_%s = this.%s.Name()" % (f, f))
+                L.append("  let V_%s = this.%s.Serialize_0()" % (f, f))
+                L.append("  let E_%s = this.%s.Serialize_1()" % (f, f))
+                L.append("  let W_%s = (this.%s != nil && V_%s != nil)" % (f, f, f))
+            for f in fields:
+                # no other held property claims the same member name
+                L.append("  let U_%s = (%s)" % (f, " && ".join("(this.%s == nil || N_%s != N_%s)" % (g, g, f) for g in fields if g != f) or "true"))
+            for f in fields:
+                L.append("  [C12] ensures %s_is_written_under_its_own_name: result1 == nil && W_%s && U_%s ==> has(result0, N_%s) && result0[N_%s] == V_%s" % (f, f, f, f, f, f))
+                L.append("  [C12] ensures a_failure_of_%s_fails_the_whole: this.%s != nil && E_%s != nil ==> result1 != nil" % (f, f, f))
+            L.append("  [C12] ensures unknown_members_are_written_unless_a_property_took_the_name: result1 == nil ==> (forall k String :: {result0[k]} has(this.unknown, k) && !%s(k) ==> has(result0, k) && result0[k] == this.unknown[k])" % W)
+            L.append("  [C12] ensures nothing_else_is_written: result1 == nil ==> (forall k String :: {has(result0, k)} has(result0, k) ==> has(this.unknown, k) || %s(k))" % W)
+            L.append("  loop 1 [C12] invariant own_new_map: m != nil && fresh(m)")
+            L.append("  loop 1 [C12] invariant only_written_names_and_visited_members: forall k String :: {has(m, k)} has(m, k) ==> %s(k) || visited(1)[k]" % W)
+            L.append("  loop 1 [C12] invariant visited_members_are_present: forall k String :: {visited(1)[k]} visited(1)[k] ==> has(m, k)")
+            L.append("  loop 1 [C12] invariant visited_are_unknown_members: forall k String :: {visited(1)[k]} visited(1)[k] ==> has(this.unknown, k)")
+            L.append("  loop 1 [C12] invariant unknown_values_so_far: forall k String :: {m[k]} visited(1)[k] && !%s(k) ==> m[k] == this.unknown[k]" % W)
+            for f in fields:
+                L.append("  loop 1 [C12] invariant %s_present: W_%s ==> has(m, N_%s)" % (f, f, f))
+                L.append("  loop 1 [C12] invariant %s_written: W_%s && U_%s ==> m[N_%s] == V_%s" % (f, f, f, f, f))
+                L.append("  loop 1 [C12] invariant %s_did_not_fail: this.%s != nil ==> E_%s == nil" % (f, f, f))
+            nfun += 1
         L.append("dyncall %s.Deserialize%s.* satisfies slot-decoder-call" % (pkg, t))
         for f, dec, _ in sorted(exp):
             L.append("iface %s.privateManager.%s" % (pkg, dec))
@@ -415,9 +416,10 @@ if __name__ == "__main__":
     elif sys.argv[1] == "c12":
         bad, nfun = emit_c12(repo, types, props, anc, desc, sys.argv[3])
         print(json.dumps(dict(types=len(types), properties=len(props), type_accessor_contracts=nfun, lemma_failures=bad)))
-    elif sys.argv[1] == "c12types":
+    elif sys.argv[1] in ("c12types", "c12ser", "c12ser-quick"):
         only = set(sys.argv[4].split(",")) if len(sys.argv) > 4 else None
-        n = emit_c12_types(repo, types, props, anc, sys.argv[3], only)
+        n = emit_c12_types(repo, types, props, anc, sys.argv[3], only, serialize=sys.argv[1] != "c12types",
+                           maxprops=20 if sys.argv[1] == "c12ser-quick" else None)
         print(json.dumps(dict(types=len(types), properties=len(props), type_decoder_contracts=n, lemma_failures=[])))
     elif sys.argv[1] == "c14":
         emit_c14(types, sys.argv[3])
